@@ -87,6 +87,14 @@ class FnView(object):
         facts += truthy_facts(st.test, pol)
     return facts
 
+  def live(self, site_node):
+    """False when a dominating test is a constant that never lets control
+    reach the node (`if x and False:`)."""
+    for e, val in self.guards(site_node):
+      if isinstance(e, ast.Constant) and bool(e.value) != val:
+        return False
+    return True
+
   def assigned_from(self, name):
     """Value expressions assigned to local `name` (flow-insensitive)."""
     out = []
